@@ -34,6 +34,25 @@ from forml.provider.sink import null
 
 LOGGER = logging.getLogger(__name__)
 
+# Verification hooks (off unless FORML_VERIF=1 and FORML_VERIF_TRACE=<dir>): one JSON line per event and process
+_VERIF_TRACE = os.environ.get('FORML_VERIF_TRACE') if os.environ.get('FORML_VERIF') == '1' else None
+_VERIF_SEQ = [0]
+
+
+def _verif(event: str, **fields: typing.Any) -> None:
+    """Append the event to this process' trace file (single atomic write, per-process sequence number)."""
+    if not _VERIF_TRACE:
+        return
+    import json  # pylint: disable=import-outside-toplevel
+
+    _VERIF_SEQ[0] += 1
+    line = json.dumps({'ev': event, 'pid': os.getpid(), 'seq': _VERIF_SEQ[0], **fields}) + '\n'
+    fdesc = os.open(os.path.join(_VERIF_TRACE, f'{os.getpid()}.ndjson'), os.O_WRONLY | os.O_APPEND | os.O_CREAT, 0o644)
+    try:
+        os.write(fdesc, line.encode())
+    finally:
+        os.close(fdesc)
+
 
 class Result(typing.NamedTuple):
     """Result tuple."""
@@ -110,12 +129,16 @@ class Pool(context.SpawnProcess):
                     task: Task = self._tasks.get(timeout=1)
                 except queue.Empty:
                     continue
+                _verif('take', task=task.id)
                 try:
                     self._results.put_nowait(task.success(self._runner.call(task.entry)))
+                    _verif('done', task=task.id, status='ok')
                 except forml.AnyError as err:
                     self._results.put_nowait(task.failure(err))
+                    _verif('done', task=task.id, status='error')
                 except Exception as err:
                     self._results.put_nowait(task.failure(err))
+                    _verif('done', task=task.id, status='fatal')
                     self._stopped.set()
                     raise err
             LOGGER.debug('Worker loop %s quiting', self.name)
@@ -194,6 +217,7 @@ class Executor(threading.Thread):
                 self._pending[result.id].set_exception(result.exception)
             else:
                 self._pending[result.id].set_result(result.outcome)
+            _verif('resolve', executor=id(self), task=result.id, status='error' if result.exception else 'ok')
             del self._pending[result.id]
         else:
             self._stopped.set()
@@ -213,6 +237,7 @@ class Executor(threading.Thread):
         outcome = futures.Future()
         self._pending[self._index] = outcome
         self._tasks.put(Task(self._index, entry))
+        _verif('submit', executor=id(self), task=self._index)
         self._index += 1
         return outcome
 
